@@ -5,7 +5,7 @@
    interleaving of client calls, per-channel deliveries (OSrv c / OCli c), disconnects, clock
    ticks and housekeeping runs, because `ops` is universally quantified. *)
 From OlaBase Require Import Bytes.
-From C04 Require Import Gen Model Proofs Once Fidelity Safe Merge Wf Fidelity2 Fifo Exactly Fifo2 Gone Ts Coroll.
+From C04 Require Import Gen Model Proofs Once Fidelity Safe Merge Wf Fidelity2 Fifo Exactly Fifo2 Gone Ts Coroll Time EndToEnd.
 Local Open Scope N_scope.
 
 (* constants regenerated from the headers equal the numbers the property text uses *)
@@ -13,6 +13,13 @@ Theorem c04_consts :
   (DMX_UNIVERSE_SIZE, SOURCE_PRIORITY_MIN, SOURCE_PRIORITY_DEFAULT, SOURCE_PRIORITY_MAX, TIMEOUT_US)
   = (512, 0, 100, 200, 2500000).
 Proof. exact consts_ok. Qed.
+Print Assumptions c04_consts.
+
+(* further regenerated constants: housekeeping period (OlaServer::K_HOUSEKEEPING_TIMEOUT_MS, 10 s: a
+   silent source is marked at the first run after its last frame and evicted at the next, i.e.
+   10-20 s after it), and the RPC receive-buffer bounds the scale histories straddle *)
+Theorem c04_consts2 : (HOUSEKEEPING_MS, RPC_INITIAL_BUFFER, RPC_MAX_BUFFER) = (10000, 2048, 1048576).
+Proof. reflexivity. Qed.
 Print Assumptions c04_consts.
 
 (* What the server stores for a send: at most 512 slots, untouched when the client sent <= 512;
@@ -403,6 +410,105 @@ Print Assumptions c04_gone_inert.
 Example c04_gone_nonvacuous :
   gone (run (init_state 2) [OReg 0 1 true; OSrv 0; ODisc 0; OSrv 0]) 0.
 Proof. split; vm_compute; reflexivity. Qed.
+
+(* THE 2.5 s SOURCE TIMEOUT at the client API, over histories with clock ticks.  A stored frame only
+   changes when the server applies a send of that client (or goes with the client); so if client c's
+   frame for universe u was stored with timestamp ts in some state, then after ANY continuation in
+   which nothing of c has been applied (c connected but silent), once the clock has reached
+   ts + 2 500 000 us, c is in no universe's group of live sources: by c04_fidelity it contributes to
+   no merge, whatever its priority. *)
+Theorem c04_silent_times_out : forall st ops c u s,
+  cd_find (sv_cdata (st_sv st)) (c, u) = Some s ->
+  let st' := run st ops in
+  length (appc st' c) = length (appc st c) ->
+  s_ts s + 2500000 <= st_now st' ->
+  forall srcs s', ~ In (c, s') (lives (st_now st') (sv_cdata (st_sv st')) u srcs).
+Proof. exact silent_times_out. Qed.
+Print Assumptions c04_silent_times_out.
+
+Theorem c04_stored_only_by_send : forall st ops c u,
+  let st' := run st ops in
+  (length (appc st c) <= length (appc st' c))%nat /\
+  (cd_find (sv_cdata (st_sv st')) (c, u) = cd_find (sv_cdata (st_sv st)) (c, u) \/
+   cd_find (sv_cdata (st_sv st')) (c, u) = None \/
+   (length (appc st c) < length (appc st' c))%nat).
+Proof. intros st ops c u. exact (Q_run ops st c u). Qed.
+Print Assumptions c04_stored_only_by_send.
+
+Example c04_silent_times_out_nonvacuous :
+  let st := run (init_state 2) [OReg 1 1 true; OSrv 1; OSend false false 0 1 (Some 150) [9]; OSrv 0] in
+  let st' := run st [OTick 2500000] in
+  exists s, cd_find (sv_cdata (st_sv st)) (0, 1) = Some s /\ s_ts s + 2500000 <= st_now st' /\
+            length (appc st' 0) = length (appc st 0).
+Proof.
+  cbn zeta. exists {| s_data := [9]; s_ts := 1000000000; s_prio := 150 |}.
+  vm_compute. repeat split; try reflexivity; discriminate.
+Qed.
+
+(* HOUSEKEEPING EVICTION (OlaServer::RunHousekeeping -> Universe::CleanStaleSourceClients), every
+   server state: one run keeps exactly the sources that sent since the previous run and marks them;
+   sink registrations, frames and priorities are untouched.  Two runs with no send in between leave
+   every surviving universe without source clients, with its sink set intact: the silent client is
+   evicted as a source but stays registered. *)
+Theorem c04_housekeeping_eviction :
+  (forall x, let x' := fst (clean_stale x) in
+     u_id x' = u_id x /\ u_sinks x' = u_sinks x /\ u_buf x' = u_buf x /\ u_aprio x' = u_aprio x /\
+     (forall c b, In (c, b) (u_srcs x') <-> b = true /\ In (c, false) (u_srcs x))) /\
+  (forall sv x', In x' (sv_unis (housekeeping sv)) -> exists x, In x (sv_unis sv) /\ x' = fst (clean_stale x)) /\
+  (forall sv x2, In x2 (sv_unis (housekeeping (housekeeping sv))) ->
+     u_srcs x2 = [] /\ exists x, In x (sv_unis sv) /\ u_id x2 = u_id x /\ u_sinks x2 = u_sinks x).
+Proof.
+  split; [exact clean_stale_spec|]. split; [exact housekeeping_unis|exact housekeeping_twice].
+Qed.
+Print Assumptions c04_housekeeping_eviction.
+
+(* END TO END ("what the client library sent is what a fetch observes"), single sender, composed
+   through the API call, the poller step, the service method, the deferred clean-up, the fetch call,
+   its poller step and the client-side completion.  From ANY reachable state: client c (connected,
+   request channel drained) calls the streaming SendDMX(u, d, p); the poller dispatches c's
+   descriptor; another connected, drained client y that is not registered for u calls FetchDMX(u),
+   the poller dispatches y's descriptor and y's library reads the reply.  If c is the only source
+   of the existing universe u and the frame is non-empty, y's callback runs once with success,
+   universe u, priority min(p mod 256, 200) and exactly d cut to 512 slots. *)
+Theorem c04_end_to_end : forall n ops c y u x d p,
+  let st0 := run (init_state n) ops in
+  c <> y ->
+  k_closed (st_cl st0 c) = false -> sv_alive (st_sv st0) c = true -> k_c2s (st_cl st0 c) = [] ->
+  k_closed (st_cl st0 y) = false -> sv_alive (st_sv st0) y = true ->
+  k_c2s (st_cl st0 y) = [] -> k_s2c (st_cl st0 y) = [] ->
+  find_uni (sv_unis (st_sv st0)) u = Some x ->
+  (u_srcs x = [] \/ exists b, u_srcs x = [(c, b)]) -> ~ In y (u_sinks x) -> dmx_set d <> [] ->
+  let st2 := run st0 [OSend false false c u (Some p) d; OSrv c] in
+  snd (step (run st2 [OFetch y u; OSrv y]) (OCli y)) =
+  [EFetch y (st_next st2) None u (clamp_prio (Some (u8 p))) (dmx_set d)].
+Proof. exact end_to_end. Qed.
+Print Assumptions c04_end_to_end.
+
+Example c04_end_to_end_nonvacuous :
+  let st0 := run (init_state 3) [OReg 2 1 true; OSrv 2; OCli 2] in
+  exists x, find_uni (sv_unis (st_sv st0)) 1 = Some x /\ u_srcs x = [] /\ u_sinks x = [2] /\
+    k_closed (st_cl st0 0) = false /\ sv_alive (st_sv st0) 0 = true /\ k_c2s (st_cl st0 0) = [] /\
+    k_closed (st_cl st0 1) = false /\ sv_alive (st_sv st0) 1 = true /\
+    k_c2s (st_cl st0 1) = [] /\ k_s2c (st_cl st0 1) = [].
+Proof. cbn zeta. eexists. vm_compute. repeat split. Qed.
+
+(* PIPELINED REQUESTS, THEN DISCONNECT BEFORE THE DAEMON RUNS (model run).  Client 0 queues an acked
+   frame, a fetch and a rename and stops; the daemon then handles the head of the channel: the frame
+   is applied and pushed to the registered client 1, the reply write fails, the session goes away
+   from the event loop (no hazard), the fetch and the rename are dropped with the channel (the name
+   stays default), nothing of client 0 ever completes, client 0 is in no source set and has no
+   stored frame, and client 1 is untouched apart from the push. *)
+Example c04_pipeline_disconnect :
+  let st := run (init_state 2)
+    [OReg 1 1 true; OSrv 1; OCli 1;
+     OSend true false 0 1 (Some 100) [1; 2]; OFetch 0 1; OName 0 1 [65]; ODisc 0; OSrv 0] in
+  st_hz st = false /\ sv_alive (st_sv st) 0 = false /\ k_c2s (st_cl st 0) = [] /\
+  st_done st = [0] /\ st_applied st = [(0, (1, [1; 2], Some 100))] /\
+  cd_find (sv_cdata (st_sv st)) (0, 1) = None /\
+  map (fun x => (u_id x, u_name x, u_buf x, u_aprio x, u_srcs x, u_sinks x)) (sv_unis (st_sv st))
+    = [(1, None, [1; 2], 100, [], [1])] /\
+  k_s2c (st_cl st 1) = [SPush 1 100 [1; 2]] /\ sv_alive (st_sv st) 1 = true.
+Proof. vm_compute. repeat split. Qed.
 
 (* hypotheses of c04_fidelity_partial are satisfiable, with a registered sink *)
 Example c04_fidelity_nonvacuous :
